@@ -85,10 +85,14 @@ def run(ctx):
     # translator self-check (codes / type map / field names)
     tabs = run_worker(W / "c08_tables.py", {"patterns": []})
     classes = list(tabs["codes"])
-    ans = ctx.driver.run([f"wamp.code {c}" for c in classes] + [f"wamp.fields {c}" for c in classes] + ["wamp.typemap", "wamp.binary"])
+    ans = ctx.driver.run([f"wamp.code {c}" for c in classes] + [f"wamp.fields {c}" for c in classes] +
+                         [f"wamp.speccode {c}" for c in classes] + ["wamp.typemap", "wamp.binary"])
     n = len(classes)
     model_fields = {}
     for i, c in enumerate(classes):
+        if ans[2 * n + i] != str(tabs["codes"][c]):
+            violate(f"type-code:{c}", f"{c}.MESSAGE_TYPE = {tabs['codes'][c]}, the WAMP protocol says {ans[2 * n + i]}",
+                    {"cls": c, "real": tabs["codes"][c], "spec": ans[2 * n + i]})
         if ans[i] != str(tabs["codes"][c]):
             res.correspondence_breaks.append({"stream": "translator", "what": f"MESSAGE_TYPE {c}", "real": tabs["codes"][c], "generated": ans[i]})
         model_fields[c] = ans[n + i].split(",")
@@ -209,7 +213,9 @@ def run(ctx):
             res.evaluations += 1
             exp = binary_tab.get(name)
             if exp is None or (exp == "1") != bool(flag):
-                violate(f"binary-flag:{name}", f"{sid}.serialize reports is_binary={flag}, BINARY table says {exp}", {"ser": sid})
+                res.correspondence_breaks.append({"stream": "binary-table", "ser": sid, "real": flag, "generated": exp})
+            if bool(flag) != (name != "json"):
+                violate(f"binary-flag:{name}", f"{sid}.serialize reports is_binary={flag}; only JSON is a text serializer", {"ser": sid})
             if not flag and not istext:
                 violate(f"binary-flag-text:{name}", f"{sid} reports text but the payload is not valid UTF-8", {"ser": sid})
         for c in o["cache"]:
